@@ -15,9 +15,14 @@ HARNESS_BIN = 'c16'
 RUN_MODULE = 'Run.C16'
 REPO_BINS = ['sccache']
 THEOREMS = ['C16_conservation', 'C16_bound', 'C16_bound_live', 'C16_no_leak', 'C16_no_leak_cancelled_waiter',
-            'C16_no_leak_quiescent',
+            'C16_no_leak_quiescent', 'C16_release_at_process_exit', 'C16_eof_moves_no_token', 'C16_next_runs_without_eof',
+            'C16_server_client_owns_its_pool', 'C16_every_acquired_holds_a_token',
             'C16_full_parallelism_restored', 'C16_fifo', 'C16_never_stuck', 'C16_progress']
 ASSUMPTIONS = [
+    'the token is released when the compiler PROCESS exits (Child::wait), not when its stdout/stderr reach EOF: a process it '
+    'started may keep the pipes open; the request then stays open (model: draining) without a token',
+    'Client::new() ignores the build jobserver named by MAKEFLAGS / CARGO_MAKEFLAGS / MFLAGS (fifo or fd pair): the server '
+    'always owns a pool of num_cpus tokens; the env leg and the e2e run with a live fifo jobserver in the environment tie this',
     'PARTIAL: the `jobserver` crate\'s pipe is a counter of tokens (a read takes one, a write returns one); read errors on '
     'it are not modelled',
     'PARTIAL: tokens that compilers take for themselves from the inherited pipe (rustc codegen threads) are not modelled; '
@@ -30,6 +35,8 @@ ASSUMPTIONS = [
     '(try_join failures) and at shutdown',
 ]
 TRUSTED = [
+    'hooks: Client::verif_unlimited (no helper thread / channel: acquire() hands out empty Acquireds), '
+    'Acquired::verif_has_token; discard_inherited_jobserver is called by the env leg exactly as daemonize() does',
     'hook: jobserver::verif_trace (callback at request / helper_acquire / deliver / delivered / receive / cancel / release; '
     'under the cfg the [emit, request_token, send] step of acquire() is serialised by a mutex so that the emitted order of '
     'requests is the FIFO order), Client::verif_available (FIONREAD on the pipe), cfg-only `impl Drop for Acquired` that '
@@ -56,6 +63,7 @@ class Book:
         self.slot = set()
         self.held = set()      # Acquired / Child alive
         self.running = set()
+        self.draining = set()  # process ended, token back, pipes not at EOF yet
         self.hand = 0
         self.out = 0           # tokens taken from the pipe and not yet given back (by the events)
         self.max_held = 0
@@ -108,12 +116,23 @@ class Book:
             self.running.discard(r)
             self.out -= 1
             self.ended[r] = t
+            if t == 'exit':
+                self.draining.add(r)
+        elif t == 'done':
+            if r not in self.draining:
+                self.vs.append('%s: request %s ended before its process' % (where, r))
+            self.draining.discard(r)
         elif t == 'start':
             if r not in self.held:
                 self.vs.append('%s: process %s started without a token' % (where, r))
             self.running.add(r)
         else:
-            self.vs.append('%s: unexpected event %s' % (where, sx.dumps(e)))
+            what = {b'token_not_back_after_process_exit':
+                    'the compiler process has exited but its job token did not come back within the bound '
+                    '(something it started still holds its stdout/stderr; the token must not wait for that)',
+                    b'token_released_while_process_runs': 'the job token was given back while the compiler process was still running',
+                    }.get(e[1] if len(e) > 1 else b'', None)
+            self.vs.append('%s: %s' % (where, what or ('unexpected event ' + sx.dumps(e))))
         self.max_held = max(self.max_held, len(self.held))
         self.max_running = max(self.max_running, len(self.running))
         if len(self.held) > self.k:
@@ -137,7 +156,7 @@ def gen_det(rng, n, maxlen):
         nxt = 1
         used = []
         for _ in range(rng.range(1, maxlen)):
-            kind = rng.weighted([('req', 8), ('poll', 3), ('wait', 2), ('drop', 6)])
+            kind = rng.weighted([('req', 8), ('poll', 3), ('wait', 3), ('finish', 1), ('drop', 6)])
             if kind == 'req':
                 if used and rng.chance(1, 8):
                     r = rng.choice(used)
@@ -145,7 +164,7 @@ def gen_det(rng, n, maxlen):
                     r = nxt
                     nxt += 1
                     used.append(r)
-                ops.append([b'req', r, rng.weighted([(0, 6), (1, 2), (2, 1), (3, 1)])])
+                ops.append([b'req', r, rng.weighted([(0, 8), (1, 2), (2, 1), (3, 1), (4, 2), (5, 2), (6, 1), (7, 1), (8, 1)])])
             elif kind == 'poll':
                 ops.append([b'poll'])
             else:
@@ -166,6 +185,13 @@ def gen_det_exhaustive(depth):
     for d in range(1, min(depth, 3) + 1):
         for seq in itertools.product(alpha2, repeat=d):
             out.append([1, [list(o) for o in seq]])
+    # compilers that exit (0 / 1) while something they started keeps their stdout+stderr
+    alpha3 = [[b'req', 1, 4], [b'req', 2, 5], [b'req', 3, 0], [b'poll'], [b'wait', 1], [b'wait', 2], [b'finish', 1],
+              [b'drop', 1], [b'drop', 3]]
+    for d in range(1, min(depth, 3) + 1):
+        for seq in itertools.product(alpha3, repeat=d):
+            if any(o[0] == b'wait' for o in seq):
+                out.append([1, [list(o) for o in seq]])
     return out
 
 
@@ -176,7 +202,7 @@ def monitor_det(case, out):
     b = Book(k)
     for i, step in enumerate(out):
         try:
-            evs, (avail, nheld, nrun, npend) = step
+            evs, (avail, nheld, nrun, npend, ndrain) = step
         except Exception:
             return ['malformed step %d' % i]
         for e in evs:
@@ -194,6 +220,8 @@ def monitor_det(case, out):
         waiting = [r for r in b.queue if r not in b.gone]
         if waiting and avail > 0:
             b.vs.append('op %d: request %s waits although %d tokens are free' % (i, waiting[0], avail))
+        if ndrain != len(b.draining):
+            b.vs.append('op %d: %d requests wait for EOF, events say %d' % (i, ndrain, len(b.draining)))
         if nheld + nrun == 0 and npend == 0 and not b.queue and avail != k:
             b.vs.append('op %d: quiescent but only %d of %d tokens are back' % (i, avail, k))
     return b.vs
@@ -238,7 +266,7 @@ def neighbours_det(case):
             yield [kk, ops]
     for i, op in enumerate(ops):
         if op[0] == b'req':
-            for kind in (0, 1, 2, 3):
+            for kind in (0, 1, 2, 3, 4, 5):
                 if kind != op[2]:
                     yield [k, ops[:i] + [[b'req', op[1], kind]] + ops[i + 1:]]
 
@@ -272,8 +300,8 @@ def compare_mt(m, i):
     if res[0] != b'ok':
         return False
     # final model state: everything back in the pipe, nothing queued or held
-    pool, reqs, hand, nq, ngone, nslots, nheld, nrun, _norph = res[1]
-    return pool == k and reqs == 0 and hand == 0 and nq == 0 and nslots == 0 and nheld == 0 and nrun == 0
+    pool, reqs, hand, nq, ngone, nslots, nheld, nrun, _norph, ndrain = res[1]
+    return pool == k and reqs == 0 and hand == 0 and nq == 0 and nslots == 0 and nheld == 0 and nrun == 0 and ndrain == 0
 
 
 def gen_mt(rng, n, maxreq):
@@ -283,7 +311,7 @@ def gen_mt(rng, n, maxreq):
         workers = rng.choice([1, 2, 4])
         reqs = []
         for i in range(rng.range(k + 1, maxreq)):
-            kind = rng.weighted([(0, 5), (1, 3), (2, 2), (3, 1)])
+            kind = rng.weighted([(0, 6), (1, 3), (2, 2), (3, 1), (4, 2), (5, 2), (6, 1), (7, 1), (8, 1)])
             delay = rng.choice([0, 0, rng.below(3000), rng.below(12000)])
             dur = rng.range(1, 12)
             cancel = 0
@@ -316,9 +344,11 @@ def monitor_mt(case, out):
             vs.append('request %d neither finished nor was cancelled' % r)
     for r, how in b.ended.items():
         if r in plan and plan[r][4] == 0:
-            want = {0: 'drop_held', 1: 'exit', 2: 'exit', 3: 'spawn_fail'}[plan[r][2]]
+            want = {0: 'drop_held', 3: 'spawn_fail'}.get(plan[r][2], 'exit')
             if how != want:
                 vs.append('request %d (never cancelled) ended by %s instead of %s' % (r, how, want))
+    if b.draining and not stuck:
+        vs.append('request(s) %s: the process has exited but the request never completed' % sorted(b.draining))
     if avail != k:
         vs.append('after all requests ended only %d of %d tokens are back in the pipe (leak)' % (avail, k))
     if granted != k:
@@ -378,6 +408,56 @@ def neighbours_mt(case):
                 yield [k, w, reqs[:i] + [r[:4] + [c]] + reqs[i + 1:]]
 
 
+# ---------------------------------------------------------------- how the server builds its client (Client::new)
+
+def gen_env(rng, n):
+    ncpu = max(1, min(3, len(os.sched_getaffinity(0))))
+    out = []
+    # every shape at least once per CPU count, then random
+    for c in range(1, ncpu + 1):
+        for shape in ([b'none', 0], [b'fifo', 7], [b'fifo', 1], [b'fifo', 30], [b'fds', 1], [b'fds', 0], [b'garbage', 0],
+                      [b'garbage', 1], [b'garbage', 2], [b'garbage', 3]):
+            for discard in (0, 1):
+                out.append([c, shape, c + 3, discard])
+    for _ in range(n):
+        c = rng.range(1, ncpu)
+        kind = rng.weighted([(b'none', 1), (b'fifo', 4), (b'fds', 3), (b'garbage', 2)])
+        arg = {b'none': 0, b'fifo': rng.range(0, 40), b'fds': rng.below(2), b'garbage': rng.below(8)}[kind]
+        out.append([c, [kind, arg], rng.range(1, c + 5), rng.below(2)])
+    return out
+
+
+def monitor_env(case, out):
+    ncpus, shape, burst, discard = case
+    if not isinstance(out, list) or len(out) != 4 or out[0] == b'panic':
+        return ['Client::new() failed / malformed output: %s' % sx.dumps(out)[:300]]
+    limited, pool, granted, empty = out
+    where = 'server seeing %d CPUs, jobserver in the environment: %s%s' % (ncpus, sx.dumps(shape), ' (after discard_inherited_jobserver)' if discard else '')
+    vs = []
+    if not limited:
+        vs.append('%s: Client::new() built an UNLIMITED client (no pool of its own: acquire() never waits)' % where)
+    if empty:
+        vs.append('%s: %d of %d simultaneous acquisitions were handed an empty Acquired (no token behind it)' % (where, empty, burst))
+    if granted > ncpus:
+        vs.append('%s: %d of %d simultaneous acquisitions were granted at once, the server sees %d CPUs' % (where, granted, burst, ncpus))
+    if limited and pool != ncpus:
+        vs.append('%s: the pool holds %d tokens, the server sees %d CPUs' % (where, pool, ncpus))
+    if granted < min(burst, ncpus):
+        vs.append('%s: only %d of %d acquisitions were granted although %d tokens exist' % (where, granted, burst, ncpus))
+    return vs
+
+
+def stats_env(case, out):
+    return ['ncpus=%d' % case[0], 'shape=%s' % case[1][0].decode(), 'discard=%d' % case[3]]
+
+
+def neighbours_env(case):
+    c, shape, burst, discard = case
+    yield [c, shape, burst, 1 - discard]
+    for sh in ([b'fifo', 7], [b'fds', 1], [b'none', 0]):
+        yield [c, sh, burst, discard]
+
+
 def legs(tier):
     def gdet(rng, tier):
         if tier == 'thorough':
@@ -389,7 +469,16 @@ def legs(tier):
             return gen_mt(rng, 9000, 16) + gen_mt(rng, 1500, 40)
         return gen_mt(rng, 600, 12) + gen_mt(rng, 60, 40)
 
+    def genv(rng, tier):
+        return gen_env(rng, 400 if tier == 'thorough' else 60)
+
     return [
+        Leg('env', genv, monitor=monitor_env, stats=stats_env, neighbours=neighbours_env, shards=8,
+            rule='the real Client::new() (what server::start_server calls) in a harness process pinned to 1..3 CPUs whose '
+                 'environment carries NO make flags / a live named-fifo jobserver with 0..40 tokens / an fd-pair jobserver with '
+                 'open or closed descriptors / four kinds of garbage, in MAKEFLAGS, CARGO_MAKEFLAGS or MFLAGS, with and without '
+                 'the discard_inherited_jobserver() call daemonize() makes first; a burst of up to ncpus+4 simultaneous acquire()s: '
+                 'limited client, pool == CPUs seen, at most that many granted at once, no empty Acquired; compared with the model'),
         Leg('det', gdet, monitor=monitor_det, nontrivial=nontrivial_det, shrink=shrink_ops, neighbours=neighbours_det,
             stats=stats_det,
             rule='real Client::new_num(k) + AsyncCommand/Child driven by ONE thread that polls every future itself and waits '
@@ -411,6 +500,8 @@ def legs(tier):
 
 WRAPPER = r"""#!/bin/sh
 # C16 wrapper "compiler": records enter/leave of every compiler / preprocessor process the server runs.
+# C16_SHAPE (from the client's environment): big = 300 kB of diagnostics; kill = dies of SIGKILL; gc = the compile run
+# leaves a background process behind that keeps its stdout and stderr for 45 s.
 L="%(ledger)s"
 K=C
 for a in "$@"; do [ "$a" = "-E" ] && K=E; done
@@ -418,7 +509,14 @@ flock "$L.lock" sh -c "echo E $$ $K >> $L"
 sleep "${C16_SLEEP:-0.05}"
 /usr/bin/gcc "$@"
 rc=$?
+if [ "$K" = C ]; then
+  case "${C16_SHAPE:-}" in
+    big) head -c 300000 /dev/zero | tr '\0' w >&2 ;;
+    gc) sleep 45 & echo $! >> "$L.gcpids" ;;
+  esac
+fi
 flock "$L.lock" sh -c "echo L $$ $K >> $L"
+if [ "$K" = C ] && [ "${C16_SHAPE:-}" = kill ]; then kill -9 $$; fi
 exit $rc
 """
 
@@ -451,7 +549,7 @@ def server_pids(cache_dir):
 
 
 def read_ledger(path):
-    """-> (max concurrency, entered, left, max by kind)"""
+    """-> (max concurrency, entered, left, kinds alive at the maximum)"""
     cur = 0
     mx = 0
     ent = lef = 0
@@ -479,7 +577,9 @@ def read_ledger(path):
     return mx, ent, lef, kinds_at_max
 
 
-def e2e_run(rep, binp, rng, tier, idx):
+def e2e_run(rep, binp, rng, tier, idx, makeflags='none', nbursts=2, gc_phase=True):
+    """One real server under `taskset -c 0-2`.  makeflags: what the server's (and the clients') environment says about a
+    jobserver of the surrounding build: none | fifo (live named fifo with 31 tokens) | fds (inherited pipe pair)."""
     root = '/dev/shm/c16e2e-%d-%d' % (os.getpid(), idx)
     shutil.rmtree(root, ignore_errors=True)
     os.makedirs(root)
@@ -494,8 +594,25 @@ def e2e_run(rep, binp, rng, tier, idx):
     env = {'PATH': '/usr/bin:/bin', 'HOME': root, 'SCCACHE_DIR': cache, 'SCCACHE_IDLE_TIMEOUT': '300',
            'TMPDIR': root, 'SCCACHE_SERVER_PORT': '0'}
     problems = []
-    info = {}
+    info = {'makeflags': makeflags}
     nsrc = [0]
+    keep_fds = []
+    pass_fds = ()
+    if makeflags == 'fifo':
+        fifo = os.path.join(root, 'make-jobserver.fifo')
+        os.mkfifo(fifo, 0o600)
+        fd = os.open(fifo, os.O_RDWR | os.O_NONBLOCK)
+        os.write(fd, b'+' * 31)
+        keep_fds.append(fd)
+        env['MAKEFLAGS'] = ' -j32 --jobserver-auth=fifo:' + fifo
+    elif makeflags == 'fds':
+        r, w = os.pipe()
+        os.set_inheritable(r, True)
+        os.set_inheritable(w, True)
+        os.write(w, b'+' * 31)
+        keep_fds += [r, w]
+        pass_fds = (r, w)
+        env['MAKEFLAGS'] = ' -j32 --jobserver-auth=%d,%d' % (r, w)
 
     def new_source(kind):
         nsrc[0] += 1
@@ -508,11 +625,13 @@ def e2e_run(rep, binp, rng, tier, idx):
         open(p, 'w').write(body)
         return p
 
-    def client(path, sleep):
+    def client(path, sleep, shape=''):
         e = dict(env)
         e['C16_SLEEP'] = sleep
+        if shape:
+            e['C16_SHAPE'] = shape
         return subprocess.Popen([binp, cc, '-c', path, '-o', path[:-2] + '.o'], env=e, cwd=src,
-                                stdout=subprocess.DEVNULL, stderr=subprocess.DEVNULL)
+                                stdout=subprocess.DEVNULL, stderr=subprocess.DEVNULL, pass_fds=pass_fds)
 
     def wait_idle(secs):
         """the ledger is balanced and has not changed for 0.5 s"""
@@ -530,6 +649,26 @@ def e2e_run(rep, binp, rng, tier, idx):
             time.sleep(0.05)
         return False
 
+    def finish_all(procs, secs):
+        hung = 0
+        for p in procs:
+            try:
+                p.wait(timeout=secs if not hung else 1)
+            except subprocess.TimeoutExpired:
+                p.kill()
+                hung += 1
+        return hung
+
+    def kill_grandchildren():
+        try:
+            for l in open(ledger + '.gcpids').read().split():
+                try:
+                    os.kill(int(l), 9)
+                except (OSError, ValueError):
+                    pass
+        except OSError:
+            pass
+
     try:
         # token count the server will use in a 3-CPU set: the same function, in the same CPU set
         rc, out, _ = pipeline.sh(['taskset', '-c', '0-2', pipeline.harness_bin(HARNESS_BIN), 'ncpus'], input=b'()\n', timeout=60)
@@ -541,7 +680,7 @@ def e2e_run(rep, binp, rng, tier, idx):
         for attempt in range(5):
             env['SCCACHE_SERVER_PORT'] = str(free_port())
             r = subprocess.run(['taskset', '-c', '0-2', binp, '--start-server'], env=env, cwd=src,
-                               stdout=subprocess.PIPE, stderr=subprocess.PIPE, timeout=120)
+                               stdout=subprocess.PIPE, stderr=subprocess.PIPE, timeout=120, pass_fds=pass_fds)
             if r.returncode == 0:
                 break
         else:
@@ -553,20 +692,20 @@ def e2e_run(rep, binp, rng, tier, idx):
             except OSError:
                 pass
 
-        nbursts = 3 if tier == 'quick' else 6
         total = killed = failing = 0
         for b in range(nbursts):
             n = rng.range(12, 40) if tier != 'quick' else (16 if b == 0 else rng.range(24, 40))
             procs = []
             for i in range(n):
-                kind = rng.weighted([('ok', 6), ('ppfail', 1), ('ccfail', 2), ('dup', 1)])
+                kind = rng.weighted([('ok', 6), ('ppfail', 1), ('ccfail', 2), ('dup', 1), ('big', 1), ('kill', 1)])
+                shape = kind if kind in ('big', 'kill') else ''
                 if kind == 'dup' and nsrc[0] > 0:
                     path = os.path.join(src, 's%d.c' % rng.range(1, nsrc[0]))
                 else:
                     path = new_source(kind)
-                if kind in ('ppfail', 'ccfail'):
+                if kind in ('ppfail', 'ccfail', 'kill'):
                     failing += 1
-                p = client(path, '0.05')
+                p = client(path, '0.05', shape)
                 kill_at = time.time() + rng.range(20, 250) / 1000.0 if rng.chance(1, 4) else None
                 procs.append((p, kill_at))
                 total += 1
@@ -583,38 +722,60 @@ def e2e_run(rep, binp, rng, tier, idx):
                             pass
                         pending.remove(x)
                 time.sleep(0.005)
-            hung = 0
-            for p, _ in procs:
-                try:
-                    p.wait(timeout=90 if not hung else 1)
-                except subprocess.TimeoutExpired:
-                    p.kill()
-                    hung += 1
+            hung = finish_all([p for p, _ in procs], 90)
             if hung:
                 problems.append('burst %d: %d client(s) did not finish within 90 s (their requests never obtained a token)' % (b, hung))
                 return problems, info
             if not wait_idle(60):
-                problems.append('compiler processes still running / ledger unbalanced 120 s after burst %d' % b)
+                problems.append('compiler processes still running / ledger unbalanced 60 s after burst %d' % b)
             mx, ent, lef, kam = read_ledger(ledger)
             if mx > tokens:
-                problems.append('burst %d: %d compiler/preprocessor processes ran at once with %d job tokens (kinds %s)'
-                                % (b, mx, tokens, kam))
+                problems.append('burst %d (server environment: %s jobserver flags): %d compiler/preprocessor processes ran at once '
+                                'with %d job tokens (kinds %s)' % (b, makeflags, mx, tokens, kam))
         info.update(clients=total, killed=killed, failing=failing)
         mx, ent, lef, _ = read_ledger(ledger)
         info.update(max_concurrency=mx, processes=ent)
 
+        if gc_phase and not problems:
+            # compilers that exit while something they started keeps their stdout/stderr: once the compiler PROCESS has
+            # left (ledger), its token must be back - the next requests run without waiting for that something
+            first = [client(new_source('ok'), '0.05', 'gc') for _ in range(tokens)]
+            t0 = time.time()
+            while time.time() - t0 < 60:
+                try:
+                    ngc = len(open(ledger + '.gcpids').read().split())
+                except OSError:
+                    ngc = 0
+                mxg, entg, lefg, _ = read_ledger(ledger)
+                if ngc >= tokens and entg == lefg:
+                    break
+                time.sleep(0.05)
+            else:
+                problems.append('gc phase: the %d compilers did not all run within 60 s' % tokens)
+            time.sleep(0.3)
+            nxt = [client(new_source('ok'), '0.05') for _ in range(2 * tokens)]
+            hung = finish_all(nxt, 40)
+            info['after_exit_with_pipes_held'] = '%d/%d ran' % (len(nxt) - hung, len(nxt))
+            if hung:
+                problems.append('%d compiler processes have exited (each left a background process holding its stdout/stderr) but '
+                                'their job tokens did not come back: %d of %d later requests could not run within 40 s'
+                                % (tokens, hung, len(nxt)))
+            kill_grandchildren()
+            if finish_all(first, 30):
+                problems.append('gc phase: a request did not end after the process holding its pipes was killed')
+            wait_idle(30)
+            mxg, _, _, kam = read_ledger(ledger)
+            if mxg > tokens:
+                problems.append('gc phase: %d processes at once with %d tokens' % (mxg, tokens))
+
         # saturating burst: full parallelism must be reachable again (no token lost to the history above)
         reached = 0
         for sleep in ('0.4', '1.5'):
+            if problems:
+                break
             open(ledger, 'w').close()
             procs = [client(new_source('ok'), sleep) for _ in range(3 * tokens)]
-            hung = 0
-            for p in procs:
-                try:
-                    p.wait(timeout=120 if not hung else 1)
-                except subprocess.TimeoutExpired:
-                    p.kill()
-                    hung += 1
+            hung = finish_all(procs, 120)
             if hung:
                 problems.append('saturating burst: %d client(s) did not finish within 120 s (all tokens lost?)' % hung)
                 break
@@ -626,10 +787,11 @@ def e2e_run(rep, binp, rng, tier, idx):
             if mx2 >= tokens:
                 break
         info['saturating_reached'] = reached
-        if reached < tokens:
+        if reached < tokens and not problems:
             problems.append('after the bursts only %d of %d processes can run at once: %d token(s) leaked'
                             % (reached, tokens, tokens - reached))
     finally:
+        kill_grandchildren()
         try:
             subprocess.run([binp, '--stop-server'], env=env, cwd=src, stdout=subprocess.DEVNULL, stderr=subprocess.DEVNULL, timeout=30)
         except Exception:
@@ -637,6 +799,11 @@ def e2e_run(rep, binp, rng, tier, idx):
         for pid in server_pids(cache):
             try:
                 os.kill(pid, 9)
+            except OSError:
+                pass
+        for fd in keep_fds:
+            try:
+                os.close(fd)
             except OSError:
                 pass
         shutil.rmtree(root, ignore_errors=True)
@@ -650,11 +817,15 @@ def extra(rep, known):
         return
     binp = pipeline.repo_bin('sccache')
     rng = pipeline.Rng(rep.seed).fork('C16:e2e')
-    runs = 1 if rep.tier == 'quick' else 4
+    if rep.tier == 'quick':
+        plan = [dict(makeflags='none', nbursts=2, gc_phase=True), dict(makeflags='fifo', nbursts=1, gc_phase=False)]
+    else:
+        plan = [dict(makeflags='none', nbursts=6, gc_phase=True), dict(makeflags='fifo', nbursts=3, gc_phase=True),
+                dict(makeflags='fds', nbursts=2, gc_phase=False), dict(makeflags='none', nbursts=6, gc_phase=True)]
     t0 = time.time()
     allp = []
-    for i in range(runs):
-        problems, info = e2e_run(rep, binp, rng, rep.tier, i)
+    for i, kw in enumerate(plan):
+        problems, info = e2e_run(rep, binp, rng, rep.tier, i, **kw)
         rep.traces += 1
         rep.evaluations += info.get('clients', 0)
         for k, v in info.items():
@@ -664,11 +835,14 @@ def extra(rep, known):
             rep.violation('property', 'e2e', 'e2e run %d seed %d: %s' % (i, rep.seed, info), p)
         allp += problems
     rep.traces += rep.legs.get('mt', {}).get('cases', 0)  # every mt case is one recorded trace put to the model's `accept`
-    rep.legs['e2e'] = dict(runs=runs, problems=len(allp), wall_s=round(time.time() - t0, 1))
+    rep.legs['e2e'] = dict(runs=len(plan), problems=len(allp), wall_s=round(time.time() - t0, 1))
     rep.oblige('e2e:ledger-bound-and-no-leak', not allp, '; '.join(allp[:5]) if allp else 'max concurrency <= tokens in every burst; saturating burst reached the token count')
-    rep.rule.append('e2e: real sccache server under `taskset -c 0-2` (token count = util::num_cpus() evaluated by the harness in the '
-                    'same CPU set), bursts of 12-40 clients through a wrapper compiler that records enter/leave of the preprocessor '
-                    'run (-E) and the compile run in a flock-ed ledger and sleeps 50 ms; ~30% failing sources (#error / undeclared '
-                    'identifier), ~25% clients SIGKILLed 20-250 ms into the request; monitor: concurrency in the ledger <= tokens at '
-                    'every line; afterwards a saturating burst of 3*tokens clients must reach exactly the token count (retried once '
-                    'with longer sleeps before it is reported)')
+    rep.rule.append('e2e: real sccache servers under `taskset -c 0-2` (token count = util::num_cpus() evaluated by the harness in the '
+                    'same CPU set), one with no make flags and one started with MAKEFLAGS naming a LIVE fifo jobserver of 31 tokens '
+                    '(thorough: also an inherited fd pair); bursts of 12-40 clients through a wrapper compiler that records enter/leave '
+                    'of the preprocessor run (-E) and the compile run in a flock-ed ledger and sleeps 50 ms; failing sources (#error / '
+                    'undeclared identifier), compilers that print 300 kB of diagnostics or die of SIGKILL, ~25% clients SIGKILLed '
+                    '20-250 ms into the request; monitor: concurrency in the ledger <= tokens at every line; then `tokens` compilers '
+                    'that exit leaving a background process on their stdout/stderr: 2*tokens later requests must run within 40 s '
+                    'while those pipes are still held; finally a saturating burst of 3*tokens clients must reach exactly the token '
+                    'count (retried once with longer sleeps before it is reported)')
